@@ -17,6 +17,7 @@ structure Case where
   unmod : List String := []
   prevF : Nat := 0
   unsafeAt : Option String := none
+  wantBinds : Bool := false
 
 def fieldVal (toks : List String) (key : String) : Nat :=
   match toks.find? (fun t => t.startsWith key) with
@@ -52,7 +53,7 @@ partial def loop (h : IO.FS.Stream) (out : IO.FS.Stream) (cur : Option Case) : I
   if line.isEmpty then return ()
   if line.startsWith "BEGIN " then
     out.putStr line
-    loop h out (some {})
+    loop h out (some { wantBinds := (line.trimAscii.toString.splitOn " ").contains "binds" })
   else if line.startsWith "END " then
     match cur with
     | some c =>
@@ -62,6 +63,9 @@ partial def loop (h : IO.FS.Stream) (out : IO.FS.Stream) (cur : Option Case) : I
       out.putStrLn s!"S {match c.unsafeAt with | some w => w | none => "ok"}"
       out.putStrLn s!"E {c.s.diags}"
       for d in c.s.dump do out.putStrLn s!"D {d}"
+      if c.wantBinds then
+        for b in c.s.binds.reverse do
+          out.putStrLn s!"B {quoteTok b.1} {match b.2 with | some sid => toString sid | none => "none"}"
     | none => pure ()
     out.putStr line
     loop h out none
